@@ -868,7 +868,75 @@ struct ArenaHistWL : Workload {
   }
 };
 
+// (d) `alloc_reusable` slow path under a REAL heap failure: the current block has 16..2040 bytes left, the pooled request does not
+// fit, the leftover is handed to the size-class lists, the heap refuses the new block (only the malloc wrapper can produce this:
+// hook H1 fires before the leftover is distributed), the call answers null - and the arena is used further: every region handed
+// out afterwards (one-shot and pooled) is filled with its own tag; overlapping regions or a region whose bytes changed abort.
+struct Regions {
+  struct R { uint8_t* p; size_t n; uint8_t tag; };
+  std::vector<R> v;
+  uint8_t next = 1;
+  void add(void* p, size_t n) {
+    if (!p || !n) return;
+    uint8_t t = next++; if (!next) next = 1;
+    memset(p, t, n);
+    v.push_back(R{static_cast<uint8_t*>(p), n, t});
+  }
+  void drop(void* p) { for (size_t i = 0; i < v.size(); i++) if (v[i].p == p) { v.erase(v.begin() + long(i)); return; } }
+  void check(const char* where) {
+    for (size_t i = 0; i < v.size(); i++) {
+      for (size_t k = 0; k < v[i].n; k++)
+        if (v[i].p[k] != v[i].tag) { fprintf(stderr, "C15-CORRUPTION at %s: region %zu (%zu bytes) was overwritten at byte %zu\n", where, i, v[i].n, k); abort(); }
+      for (size_t j = i + 1; j < v.size(); j++)
+        if (v[i].p < v[j].p + v[j].n && v[j].p < v[i].p + v[i].n) { fprintf(stderr, "C15-CORRUPTION at %s: regions %zu and %zu overlap\n", where, i, j); abort(); }
+    }
+  }
+};
+
+struct ArenaReuseWL : Workload {
+  std::unique_ptr<Arena> arena;
+  Error prepare(int attempt) override {
+    eh.clear();
+    if (attempt == 0 || !arena) { arena.reset(); arena.reset(new Arena(8192)); }
+    else arena->reset(attempt % 2 ? ResetPolicy::kSoft : ResetPolicy::kHard);
+    return Error::kOk;
+  }
+  Error body(Out2& o) override {
+    Arena& ar = *arena;
+    unsigned failed = 0;
+    static const size_t lefts[] = {16, 40, 104, 520, 2040};
+    for (size_t L : lefts) {
+      ar.reset(ResetPolicy::kHard);
+      Regions regs;
+      void* p0 = ar.alloc_oneshot(64);
+      if (!p0) { failed++; continue; }
+      regs.add(p0, 64);
+      size_t rem = ar.remaining_size();
+      if (rem > L) { void* f = ar.alloc_oneshot(rem - L); if (!f) { failed++; continue; } regs.add(f, rem - L); }
+      size_t got = 0;
+      void* big = ar.alloc_reusable(2000, Out(got));          // slot class 2048 > L: leftover pooled, then a new block is needed
+      if (!big) failed++; else regs.add(big, got);
+      regs.check("after the pooled request");
+      static const size_t os[] = {8, 16, 24, 8};
+      for (size_t n : os) { void* q = ar.alloc_oneshot(n); if (!q) failed++; else regs.add(q, n); }
+      static const size_t rs[] = {16, 30, 64, 100, 256, 500, 1024, 16, 16};
+      std::vector<std::pair<void*, size_t>> pooled;
+      for (size_t n : rs) { void* q = ar.alloc_reusable(n, Out(got)); if (!q) failed++; else { regs.add(q, got); pooled.push_back({q, got}); } }
+      regs.check("after further use");
+      for (size_t i = 0; i < pooled.size(); i += 2) { regs.drop(pooled[i].first); ar.free_reusable(pooled[i].first, pooled[i].second); }
+      for (size_t n : rs) { void* q = ar.alloc_reusable(n, Out(got)); if (!q) failed++; else regs.add(q, got); }
+      for (size_t n : os) { void* q = ar.alloc_oneshot(n); if (!q) failed++; else regs.add(q, n); }
+      regs.check("after release and reuse");
+      ArenaStatistics st = ar.statistics();
+      o.bytes.push_back(uint8_t(st.used_size() <= st.reserved_size()));
+    }
+    o.bytes.push_back(uint8_t(failed == 0));
+    return failed ? Error::kOutOfMemory : Error::kOk;
+  }
+};
+
 static Workload* make_workload(const std::string& w) {
+  if (w == "arenareuse") return new ArenaReuseWL();
   if (w == "arenahist") return new ArenaHistWL();
   if (w == "compcf") return new CompX86(2);
   if (w == "compa64") return new CompA64();
